@@ -572,6 +572,9 @@ func (c *compiler) compile(tok *token) []instruction {
 			if len(args) > 0 && args[len(args)-1].Symbol == "..." {
 				ellipsis = 1
 			}
+			if code == codeCopy { // B: whether the number of elements copied is used
+				ellipsis = tok.Tokens[callReturns].Int()
+			}
 			res = append(res, instruction{Code: code, A: reg(len(args)), B: reg(ellipsis)})
 		} else {
 			fnc := c.compile(tok.Tokens[callName])
